@@ -72,7 +72,7 @@ pub struct VxCap { pub g1: String, pub g2: String, pub g3: String }
 // number of $(..) substitutions still to do in a word. ASSUMED: one replace step removes one (false when the inserted output itself
 // contains "$(" : the inserted text is scanned again, see the rescanning note in DESIGN)
 pub uninterp spec fn spec_subst_count(t: Seq<char>) -> nat;
-// the word text before the first `$(` and after the last `)` (groups head / tail of the pattern)
+// the word text before the first `$(` (the unmatched prefix plus group head) and after the last `)` (group tail)
 pub uninterp spec fn spec_sub_head(t: Seq<char>) -> Seq<char>;
 pub uninterp spec fn spec_sub_tail(t: Seq<char>) -> Seq<char>;
 // s with every `$` doubled (str::replace('$', "$$"))
